@@ -32,6 +32,8 @@ func init() {
 			"NOT decided: which trigger becomes true first for a given dialogue/segmentation (run-time values).",
 		Assumptions: []string{"bytes.Contains / regexp.Match are the library predicates they name"},
 		Mutants: []Mutant{
+			{ID: "C18-next-timeout-skips-reset", Desc: "a callback with a next-timeout continues without resetting the output", Rule: "C18/execute",
+				Edits: []Edit{{File: "driver/generic/sendwithcallbacks.go", Old: "\tif cb.ResetOutput {\n\t\tb = nil\n\t}\n\n\tnt := t\n\tif cb.NextTimeout != 0 {\n\t\tnt = cb.NextTimeout\n\t}\n\n\treturn d.handleCallbacks(callbacks, b, fb, nt)", New: "\tif cb.NextTimeout != 0 {\n\t\treturn d.handleCallbacks(callbacks, b, fb, cb.NextTimeout)\n\t}\n\n\tif cb.ResetOutput {\n\t\tb = nil\n\t}\n\n\treturn d.handleCallbacks(callbacks, b, fb, t)"}}},
 			{ID: "C18-notcontains-inverted", Desc: "not-contains test inverted again", Rule: "C18/trigger-table",
 				Edits: []Edit{{File: "driver/generic/sendwithcallbacks.go", Old: "if (c.Contains != \"\" && bytes.Contains(b, c.contains())) &&\n\t\t!(c.NotContains != \"\" && bytes.Contains(b, c.notContains())) {", New: "if (c.Contains != \"\" && bytes.Contains(b, c.contains())) &&\n\t\t!(c.NotContains != \"\" && !bytes.Contains(b, c.notContains())) {"}}},
 			{ID: "C18-re-ignores-notcontains", Desc: "regex trigger ignores the not-contains text", Rule: "C18/trigger-table",
@@ -176,7 +178,7 @@ func runC18(c *Ctx, r *Report) {
 
 	// needles
 	for _, h := range []struct {
-		fn          *ssa.Function
+		fn         *ssa.Function
 		src, cache string
 	}{{contains, "Contains", "containsBytes"}, {notContains, "NotContains", "notContainsBytes"}} {
 		hp := EnumeratePaths(c, h.fn, &dtConfig{IsAtomCall: pure})
@@ -466,6 +468,10 @@ func checkExecuteCallback(c *Ctx, r *Report) {
 			wantB := pn(3)
 			if lit("ResetOutput") == "true" {
 				wantB = "nil"
+			}
+			if lit("ResetOutput") == "" {
+				set("reset-only-trigger", false, "a path continues reading without having consulted ResetOutput: the buffer the next trigger scan sees does not depend on the callback's reset setting (the answered prompt stays in it and fires the callback again)")
+				continue
 			}
 			set("reset-only-trigger", a[1] == pn(2) && a[2] == wantB && a[3] == pn(4),
 				fmt.Sprintf("with ResetOutput=%s the next read must get (callbacks, %s, full buffer) but gets (%s, %s, %s)", lit("ResetOutput"), wantB, a[1], a[2], a[3]))
